@@ -74,6 +74,11 @@ func (c *Calcium) RemoveNode(ctx context.Context, nodename string) error {
 		return types.ErrEmptyNodeName
 	}
 	return c.withNodePodLocked(ctx, nodename, func(ctx context.Context, node *types.Node) error {
+		// the node was read before the lock was taken: it may have been removed meanwhile
+		if _, err := c.store.GetNode(ctx, node.Name); err != nil {
+			logger.Error(ctx, err)
+			return err
+		}
 		workloads, err := c.ListNodeWorkloads(ctx, node.Name, nil)
 		if err != nil {
 			logger.Error(ctx, err)
